@@ -32,7 +32,7 @@ func (c10) Technique() string {
 	return "deterministic simulation: one logical input is built repeatedly under seeded schedules - fragmentation schedules of the simulated input stream (whole, 1-byte, random, interleaved empty reads, data delivered with EOF, chunk-aligned), seeded permutations of the entry slice, and in-process repetitions that re-draw Go's map iteration order (observed through the commit order at the simulated store) - and all returned (link,size) pairs must be identical"
 }
 func (c10) Rule() string {
-	return "one evaluation = one complete build; per seeded logical input 6-12 builds are compared pairwise (file: one per fragmentation schedule; entry set: permutations x repetitions through BuildUnixFSDirectory, BuildUnixFSShardedDirectory and the quick builder); non-trivial = the build wrote >= 2 blocks; distinct = distinct (builder, schedule set, block-count class, commit-order) signature"
+	return "one evaluation = one complete build; per seeded logical input 6-15 builds are compared pairwise (file: one per input-stream fragmentation schedule; entry set: permutations x repetitions through BuildUnixFSDirectory, BuildUnixFSShardedDirectory with murmur3 and other hashers, and the quick builder; concurrent mode: 2-3 builds as scheduled tasks on one link system against each build alone); entry sets include mixed link lengths, aliased targets, names that are not valid UTF-8, bucket-label-like prefixes, and sets straddling the auto-shard threshold; non-trivial = the build wrote >= 2 blocks or compared >= 2 entries; distinct = distinct (builder, input spec, block-count class, schedule trace) signature"
 }
 func (c10) Assumptions() []string {
 	return []string{
